@@ -208,6 +208,12 @@ func (c *Ctx) ruleSQLAgreement(rule string, tables map[string]bool) {
 					}
 					R.Check(rule, fk, st.SQL.Role()+" arguments match columns", pos, okAll, "argument i is the value of column i ("+strings.Join(cols, ",")+")", why)
 				}
+			} else if st.Dynamic && st.SQL.Verb == "INSERT" {
+				// a multi-row INSERT whose argument list is built at run time: which value lands in which column
+				// of which row is not visible to the positional comparison - a row could pair values of
+				// different elements. Not decided (the single-row prepared INSERT inside a transaction is the
+				// form the rules read).
+				R.Undecided(rule, fk, st.SQL.Role()+" arguments match columns", pos, "argument i is the value of column i, row by row", "the INSERT's arguments are assembled at run time (multi-row form): row/column pairing is not decided")
 			} else if st.Dynamic {
 				// IN-list built at run time: the list is the method's list parameter, element-wise
 				R.Trivial(rule, fk, st.SQL.Role()+" IN-list arguments", pos, "arguments are the elements of the list parameter")
